@@ -76,7 +76,7 @@ m = {
    "kind_free_text": "deterministic simulator driving command.DefaultLocker alone with cancellations at hook points"},
  ],
  "checks": [],
- "notes": "Exit codes: 0 held (possibly KNOWN-FINDING lines), 1 VIOLATION, 2 harness trouble (build, watchdog, a hung or irreproducible run with nothing reproducible found). VERIF_SEED selects the PRNG stream (default 1). Replay: ./check replay <file>. Determinism self-test of both binaries over all checks: ./check selftest [n]. Eleven genuine defects were found on the pinned tree and repaired by fix: commits in /repo; they are listed in known_findings.json (status fixed, suppressing nothing) and DESIGN.md sections 11 and 14.2. What the checks catch and what they miss is recorded per seeded change in seeded/*/meta.json and DESIGN.md section 14.5 (12 rounds, 98 independent breaking changes), false-alarm hunts in benign/ and section 14.6.",
+ "notes": "Exit codes: 0 held (possibly KNOWN-FINDING lines), 1 VIOLATION, 2 harness trouble (build, watchdog, a hung or irreproducible run with nothing reproducible found). VERIF_SEED selects the PRNG stream (default 1). Replay: ./check replay <file>. Determinism self-test of both binaries over all checks: ./check selftest [n]. Eleven genuine defects were found on the pinned tree and repaired by fix: commits in /repo; they are listed in known_findings.json (status fixed, suppressing nothing) and DESIGN.md sections 11 and 14.2. What the checks catch and what they miss is recorded per seeded change in seeded/*/meta.json and DESIGN.md section 14.5 (13 rounds, 102 independent breaking changes), false-alarm hunts in benign/ and section 14.6.",
  "not_applicable": [{"property_id": k, "reason": v} for k, v in sorted(NA.items())],
 }
 for p in have:
